@@ -154,12 +154,11 @@ func (sc *Scen) worldTerm(d *swap.SwapData, suspAtStart bool) string {
 	s := &e.served
 	chain := d.GetChain()
 	asset, network := "", ""
-	var csv uint32
 	switch chain {
 	case "btc":
-		network, csv = e.BtcNetwork, e.CsvBtc
+		network = e.BtcNetwork
 	case "lbtc":
-		asset, csv = e.LbtcAsset, e.CsvLbtc
+		asset = e.LbtcAsset
 	}
 	// premium the real premium.Setting computes for this swap
 	prem := "None"
@@ -194,7 +193,7 @@ func (sc *Scen) worldTerm(d *swap.SwapData, suspAtStart bool) string {
 	}
 	parts := []string{
 		CoqBool(e.SwapsAllowed), CoqBool(e.LiquidEnabled), CoqBool(e.BitcoinEnabled), CoqZu(e.MinAmountMsat),
-		CoqBool(e.PeerAllowed), CoqBool(suspAtStart), CoqStr(asset), CoqStr(network), CoqZu(uint64(csv)),
+		CoqBool(e.PeerAllowed), CoqBool(suspAtStart), CoqStr(asset), CoqStr(network),
 		prem, CoqStr(own), CoqList(hashes),
 		mapList(s.Height, coqOptU32), mapList(s.Send, CoqBool), mapList(s.Store, CoqBool),
 		mapList(s.Pay, coqOptStr), mapList(s.RecoverPay, coqOptStr), mapList(s.PayFee, coqOptStr),
